@@ -15,7 +15,8 @@ def main() -> None:
     tmp = tempfile.mkdtemp(prefix="verif-regen-")
     try:
         out: dict[str, str] = {}
-        for modname in ("status", "programs", "tables", "reserved", "handlers"):
+        for modname in ("status", "programs", "tables", "reserved", "handlers", "histwriter", "brokersend", "exclusion", "pollskip", "slot", "pool",
+                        "detop", "indexscan"):
             try:
                 mod = importlib.import_module(f"harness.translate.{modname}")
             except ModuleNotFoundError:
